@@ -94,6 +94,9 @@ func newWorld(ctx context.Context, rnd *hx.Rand, fl noderig.Flavour, n, t, nids 
 	for i := 0; i < nids; i++ {
 		w.ids = append(w.ids, rnd.Bytes(idLen))
 	}
+	if nids >= 3 { // a release that names one identity twice (two queued transactions of one sender with one prefix)
+		w.ids[2] = append([]byte{}, w.ids[1]...)
+	}
 	sort.Slice(w.ids, func(i, j int) bool { return string(w.ids[i]) < string(w.ids[j]) })
 	for i := 0; i < n; i++ {
 		nd, err := noderig.NewNode(ctx, w.fx, i, fl, noderig.DBOpts{})
@@ -138,7 +141,12 @@ func (w *world) reset() {
 func (w *world) keysOf(i int) (count int, correct bool) {
 	correct = true
 	db := w.nodes[i].DB()
+	seen := map[string]bool{}
 	for _, id := range w.ids {
+		if seen[string(id)] {
+			continue
+		}
+		seen[string(id)] = true
 		for _, row := range db.DecryptionKey {
 			if uint64(row.Eon) == w.fx.ConfigIndex && string(row.EpochID) == string(id) {
 				count++
@@ -162,6 +170,7 @@ var _ = eonkeys.Order
 // which order everything is delivered. `order` draws the next pending delivery; keys messages that a node emits
 // become pending for all other nodes.
 type plan struct {
+	prerelease bool // an earlier release of the first identity alone has completed everywhere
 	triggered []int
 	lose      map[[2]int]bool // (to, from) share delivery that never arrives
 	dupEvery  int             // every dupEvery-th delivery is delivered twice (0: never)
@@ -171,6 +180,46 @@ func (r *runner) run(ctx context.Context, w *world, p plan, pick func(n int) int
 	w.reset()
 	n := w.fx.N
 	schedule := []string{}
+	distinct := map[string]bool{}
+	for _, id := range w.ids {
+		distinct[string(id)] = true
+	}
+	if p.prerelease {
+		// release the first identity alone: everybody triggered, everything delivered in order
+		first := [][]byte{w.ids[0]}
+		var msgs []delivery
+		for i := 0; i < n; i++ {
+			out, err := w.nodes[i].Trigger(ctx, w.fx.ActivationBlock+1, first, noderig.TriggerExtra{Slot: 8, TxPointer: 3})
+			if err != nil {
+				r.violate("trigger-failed", fmt.Sprintf("%s: keyper %d could not produce its key shares for the earlier release: %v", w.fl, i, err), schedule, nil)
+				return false
+			}
+			for _, m := range out {
+				for j := 0; j < n; j++ {
+					if j != i {
+						msgs = append(msgs, delivery{j, i, m, "shares"})
+					}
+				}
+			}
+		}
+		for k := 0; k < len(msgs); k++ {
+			res := w.nodes[msgs[k].to].DeliverMsg(ctx, msgs[k].msg)
+			if res.Panic != "" || res.Validation != pubsub.ValidationAccept {
+				r.violate("honest-rejected", fmt.Sprintf("%s: earlier release: keyper %d did not accept the %s message of keyper %d", w.fl, msgs[k].to, msgs[k].kind, msgs[k].from), schedule, nil)
+				return false
+			}
+			for _, o := range res.Out {
+				if km, ok := o.(*p2pmsg.DecryptionKeys); ok {
+					for j := 0; j < n; j++ {
+						if j != msgs[k].to {
+							msgs = append(msgs, delivery{j, msgs[k].to, km, "keys"})
+						}
+					}
+				}
+			}
+		}
+		schedule = append(schedule, "earlier release of the first identity completed on all keypers")
+	}
 	events := make([][]string, n) // per node, the model's events
 	pending := []delivery{}
 	toTrigger := append([]int{}, p.triggered...)
@@ -178,6 +227,7 @@ func (r *runner) run(ctx context.Context, w *world, p plan, pick func(n int) int
 	seenSenders := make([]map[int]bool, n)
 	reached := make([]bool, n) // a share message arrived while >= t distinct keypers were seen, or a keys message arrived
 	emitted := make([]int, n)
+	ownBeforeReached := make([]bool, n) // the keyper had been triggered when the threshold-completing share arrived
 	for i := range seenSenders {
 		seenSenders[i] = map[int]bool{}
 	}
@@ -242,6 +292,9 @@ func (r *runner) run(ctx context.Context, w *world, p plan, pick func(n int) int
 				events[d.to] = append(events[d.to], fmt.Sprintf("s%d", d.from))
 				seenSenders[d.to][d.from] = true
 				if len(seenSenders[d.to]) >= w.fx.T {
+					if !reached[d.to] && seenSenders[d.to][d.to] {
+						ownBeforeReached[d.to] = true
+					}
 					reached[d.to] = true
 				}
 			} else {
@@ -270,16 +323,20 @@ func (r *runner) run(ctx context.Context, w *world, p plan, pick func(n int) int
 			r.violate("wrong-key", fmt.Sprintf("%s: keyper %d stores a key that is not the epoch secret key of its identity", w.fl, i), schedule, nil)
 			return false
 		}
-		if reached[i] && count != len(w.ids) {
+		if ownBeforeReached[i] && emitted[i] == 0 && !p.prerelease {
+			r.violate("no-keys-message", fmt.Sprintf("%s: keyper %d was triggered, then received the share that completed the threshold, stores the keys, but never emitted a keys message", w.fl, i), schedule, nil)
+			return false
+		}
+		if reached[i] && count != len(distinct) {
 			r.violate("incomplete", fmt.Sprintf("%s: keyper %d saw shares of %d distinct keypers (threshold %d) or a keys message but stores %d of %d keys", w.fl, i, len(seenSenders[i]), w.fx.T, count, len(w.ids)), schedule, nil)
 			return false
 		}
 		if !reached[i] && len(seenSenders[i]) >= w.fx.T && count != len(w.ids) {
 			// the threshold was completed by the keyper's own shares, after the other keypers' messages had arrived:
 			// nothing aggregates at that moment (sendkeyshare.go stores the own shares only)
-			r.violateOnce("own-share-completes-threshold", fmt.Sprintf("%s: keyper %d holds shares of %d distinct keypers (threshold %d) - its own stored last, when it was triggered after receiving the others' - and no further message arrives: it stores %d of %d keys and emits no keys message", w.fl, i, len(seenSenders[i]), w.fx.T, count, len(w.ids)), schedule)
+			r.violateOnce("own-share-completes-threshold", fmt.Sprintf("%s: keyper %d holds shares of %d distinct keypers (threshold %d) - its own stored last, when it was triggered after receiving the others' - and no further message arrives: it stores %d of %d keys and emits no keys message", w.fl, i, len(seenSenders[i]), w.fx.T, count, len(distinct)), schedule)
 		}
-		if len(events[i]) > 0 {
+		if len(events[i]) > 0 && len(distinct) == len(w.ids) && !p.prerelease {
 			line := fmt.Sprintf("NET %d %d %d %s %s", n, w.fx.T, len(w.ids), w.coeffs, strings.Join(events[i], ","))
 			impl := fmt.Sprintf("keys=%d correct=1", count)
 			if w.fl == noderig.Core {
@@ -324,7 +381,7 @@ func Run(cfg Config) (int, error) {
 				break
 			}
 			n, t := sz[0], sz[1]
-			for nids := 1; nids <= 2 && !r.stop; nids++ {
+			for nids := 1; nids <= 3 && !r.stop; nids++ {
 				w, err := newWorld(ctx, rnd, fl, n, t, nids)
 				if err != nil {
 					return 2, err
@@ -340,7 +397,7 @@ func Run(cfg Config) (int, error) {
 							}
 						}
 					}
-					p := plan{triggered: trig, lose: map[[2]int]bool{}}
+					p := plan{triggered: trig, lose: map[[2]int]bool{}, prerelease: nids >= 2 && rnd.Chance(25)}
 					if rnd.Chance(40) {
 						p.dupEvery = 2 + rnd.Intn(4)
 					}
